@@ -21,6 +21,7 @@ import (
 	"sort"
 	"strconv"
 	"strings"
+	"sync"
 	"time"
 
 	"github.com/apache/arrow-go/v18/arrow"
@@ -508,6 +509,7 @@ func famRunUnary(cc *vgirpc.CallContext, script string) (string, error) {
 	for _, l := range sc.Logs {
 		cc.ClientLog(vgirpc.LogLevel(l.Level), l.Msg, l.Extras...)
 	}
+	famMaybeAbortRID(cc.RequestID)
 	if err := sc.Out.act(); err != nil {
 		return "", err
 	}
@@ -880,10 +882,65 @@ func (s famStream) canon() string {
 	return strings.Join(parts, " ; ")
 }
 
+// ---------------------------------------------------------------- serve-context cancellation
+
+// A history can ask for the context given to Serve to be cancelled from INSIDE a call: during
+// turn k of the stream with a given id, or inside the unary handler answering a given request id.
+var (
+	famAbortMu    sync.Mutex
+	famAbortTurn  = map[string]int{}  // stream id -> turn index
+	famAbortRID   = map[string]bool{} // request id
+	famServeAbort func()              // cancels the context of the Serve call in progress
+)
+
+func famMaybeAbortTurn(sid string, k int) {
+	famAbortMu.Lock()
+	at, ok := famAbortTurn[sid]
+	f := famServeAbort
+	famAbortMu.Unlock()
+	if ok && at == k && f != nil {
+		f()
+	}
+}
+
+func famMaybeAbortRID(rid string) {
+	famAbortMu.Lock()
+	ok := famAbortRID[rid]
+	f := famServeAbort
+	famAbortMu.Unlock()
+	if ok && f != nil {
+		f()
+	}
+}
+
 // ---------------------------------------------------------------- running the real server
 
 // famServePipe feeds the given bytes (requests and input streams, back to back) to
 // Server.Serve and returns everything the server wrote. A panic escaping Serve is returned.
+// famServePipeCtx is famServePipe with a cancellable context: the family can cancel it from inside
+// a call (famMaybeAbort*); preCancel cancels it before Serve starts.
+func famServePipeCtx(s *vgirpc.Server, input []byte, preCancel bool) (out []byte, panicked any) {
+	ctx, cancel := context.WithCancel(context.Background())
+	defer cancel()
+	famAbortMu.Lock()
+	famServeAbort = cancel
+	famAbortMu.Unlock()
+	defer func() {
+		famAbortMu.Lock()
+		famServeAbort = nil
+		famAbortMu.Unlock()
+	}()
+	if preCancel {
+		cancel()
+	}
+	var buf bytes.Buffer
+	func() {
+		defer func() { panicked = recover() }()
+		s.ServeWithContext(ctx, bytes.NewReader(input), &buf)
+	}()
+	return buf.Bytes(), panicked
+}
+
 func famServePipe(s *vgirpc.Server, input []byte) (out []byte, panicked any) {
 	var buf bytes.Buffer
 	func() {
